@@ -1,6 +1,7 @@
 (* C14 - Snapshot metadata serialization is lossless for every manifest; every strict prefix is rejected.
    Property theorems only; each closed by [exact] of a lemma from proofs/CodecProofs.v, JsonProofs.v,
-   ManifestCodecProofs.v.
+   ManifestCodecProofs.v; the C14_generated_* theorems at the end restate the entry / metadata theorems over the
+   terms regenerated from torchsnapshot/manifest.py on every run (proofs/ManifestInst.v).
 
    Vocabulary (all executable, in coq/model):
      str_ok s     every code point of s is in 0..0x10FFFF (surrogates allowed) and no high surrogate is
@@ -12,6 +13,7 @@
      drop_readable  sets PrimitiveEntry.readable to None (what the reader does on purpose) *)
 From TS Require Import model.Base model.Codec model.Json model.ManifestCodec.
 From TS Require Import proofs.CodecProofs proofs.JsonProofs proofs.ManifestCodecProofs.
+From TS Require Import model.PyManifest gen.ManifestGen model.ManifestGenObs proofs.ManifestInst.
 
 (* ------------------------------------------------------------------ layer 1: primitive codecs *)
 (* Python str(int) followed by int(str) is the identity, for every integer of any magnitude. *)
@@ -141,3 +143,102 @@ Proof. vm_compute. reflexivity. Qed.
 
 Example C14_example_sprefix : sprefix [123; 10] (print (JObj [([97], JNull)])).
 Proof. eexists. split; [|vm_compute; reflexivity]. discriminate. Qed.
+
+(* ================================================================== the same statements about the code as it is now
+   gen/ManifestGen.v is regenerated on every run from torchsnapshot/manifest.py by translator/gen_manifest.py: the
+   class table (every Entry dataclass: base class, fields in source order, __init__ parameters with defaults, the
+   `type` tag written by super().__init__, the from_yaml_obj bodies), the if/elif dispatch chain and loader order of
+   SnapshotMetadata.from_yaml, the keyword arguments of the json.dumps call of SnapshotMetadata.to_yaml, and the
+   expression forms of PrimitiveEntry.get_value / _serialize / from_object.  model/PyManifest.v interprets them
+   (constructor call, dataclasses.asdict, from_yaml_obj statements, json.dumps options); g_to_yaml / g_from_yaml /
+   g_entry_json / g_entry_of_json (model/ManifestGenObs.v) are the generated writer and reader.  `Some` = returns,
+   `None` = raises. *)
+
+(* The text the generated to_yaml writes is exactly the text of the model the theorems above speak about: in
+   particular the json.dumps call has ensure_ascii=True, indent=2, sort_keys=False, default separators, and
+   asdict emits for every entry class the fields and the `type` tag of the hand-written model. *)
+Theorem C14_generated_to_yaml_is_model : forall md : metadata, g_to_yaml md = Some (to_yaml md).
+Proof. exact g_to_yaml_eq. Qed.
+Print Assumptions C14_generated_to_yaml_is_model.
+
+(* For every entry of every kind: the constructor of its class runs, asdict of the object succeeds, and the
+   dispatch of SnapshotMetadata.from_yaml followed by the class's from_yaml_obj rebuilds the entry (up to
+   `readable`). *)
+Theorem C14_generated_entry_of_yaml_of_entry : forall e : entry, exists j : jvalue,
+  g_entry_json e = Some j /\ g_entry_of_json j = Some (drop_readable e).
+Proof. exact g_entry_roundtrip. Qed.
+Print Assumptions C14_generated_entry_of_yaml_of_entry.
+
+(* from_yaml (to_yaml md) = md up to `readable` for the generated writer and reader, whatever the YAML fallback does. *)
+Theorem C14_generated_metadata_roundtrip : forall (yaml_rest : list Z -> option metadata) (md : metadata),
+  md_ok md = true ->
+  exists doc, g_to_yaml md = Some doc /\ g_from_yaml yaml_rest doc = Some (drop_readable_md md).
+Proof. exact g_metadata_roundtrip. Qed.
+Print Assumptions C14_generated_metadata_roundtrip.
+
+(* No two manifests (well formed, different up to `readable`) are written as the same document. *)
+Theorem C14_generated_to_yaml_injective : forall (md1 md2 : metadata) (doc : list Z),
+  md_ok md1 = true -> md_ok md2 = true -> g_to_yaml md1 = Some doc -> g_to_yaml md2 = Some doc ->
+  drop_readable_md md1 = drop_readable_md md2.
+Proof. exact g_to_yaml_injective. Qed.
+Print Assumptions C14_generated_to_yaml_injective.
+
+(* Every strict prefix of a document written by the generated to_yaml is rejected by the generated from_yaml
+   (json.loads is tried first and raises; then the YAML fallback, assumed to reject it: hypothesis yaml_rejects).
+   Stated for the dynamically typed reader - the SnapshotMetadata object Python would build, no typed view
+   involved - and for its typed view. *)
+Theorem C14_generated_from_yaml_rejects_strict_prefix : forall (yaml_rest : list Z -> option pv),
+  (forall md p doc, md_ok md = true -> g_to_yaml md = Some doc -> sprefix p doc -> yaml_rest p = None) ->
+  forall md p doc, md_ok md = true -> g_to_yaml md = Some doc -> sprefix p doc -> g_from_yaml_dyn yaml_rest p = None.
+Proof. exact g_from_yaml_dyn_rejects_strict_prefix. Qed.
+Print Assumptions C14_generated_from_yaml_rejects_strict_prefix.
+
+Theorem C14_generated_from_yaml_rejects_strict_prefix_typed : forall (yaml_rest : list Z -> option metadata),
+  (forall md p doc, md_ok md = true -> g_to_yaml md = Some doc -> sprefix p doc -> yaml_rest p = None) ->
+  forall md p doc, md_ok md = true -> g_to_yaml md = Some doc -> sprefix p doc -> g_from_yaml yaml_rest p = None.
+Proof. exact g_from_yaml_rejects_strict_prefix. Qed.
+Print Assumptions C14_generated_from_yaml_rejects_strict_prefix_typed.
+
+(* value -> generated from_object -> asdict -> dispatch + from_yaml_obj -> generated get_value is the identity,
+   bit for bit, for every int, str, bool, bytes value and every 8-byte float pattern. *)
+Theorem C14_generated_from_object_get_value : forall (v : pvalue) (repr : pystr), pvalue_ok v ->
+  exists (e : entry) (j : jvalue) (e' : entry),
+    g_from_object v repr = Some e /\ g_entry_json e = Some j /\ g_entry_of_json j = Some e' /\
+    g_entry_get_value e' = Some v.
+Proof. exact g_from_object_get_value. Qed.
+Print Assumptions C14_generated_from_object_get_value.
+
+(* The generated get_value chain is the model's get_value on the five PrimitiveType names and raises on every other name. *)
+Theorem C14_generated_get_value_is_model : forall (sv : pystr),
+  (forall k : pkind, g_get_value (kind_name k) sv = get_value k sv) /\
+  (forall ty : pystr, kind_of_name ty = None -> g_get_value ty sv = None).
+Proof. intros sv. split; [intros k; apply g_get_value_eq | intros ty; apply g_get_value_unsupported]. Qed.
+Print Assumptions C14_generated_get_value_is_model.
+
+(* the generated terms on a concrete manifest: surrogates, a 41-digit int key, a signalling NaN, tensor, sharded,
+   chunked, DTensor with nested mesh, object; byte for byte the model's text, read back up to `readable` *)
+Definition ex_md_gen : metadata :=
+  mkMd [48; 46; 49] 2
+    (md_manifest ex_md ++
+     [([48; 47; 115], ESharded [mkShard [0; 0] [2; 3] (mkTensor [48; 47; 115; 95; 48] [98] [102] [2; 3] false (Some [0; 24]));
+                               mkShard [2; 0] [2; 3] (mkTensor [48; 47; 115; 95; 50] [98] [102] [2; 3] false None)]);
+      ([48; 47; 99], EChunked [102] [4; 3] [mkShard [0; 0] [4; 3] (mkTensor [119] [98] [102] [4; 3] true (Some [8; 56]))] true);
+      ([48; 47; 111], EObject [48; 47; 111] [116] [111; 98; 106] false);
+      ([48; 47; 108], EList); ([48; 47; 107], EOrderedDict [KStr []; KInt 0; KBool false]);
+      ([48; 47; 98], EPrim PBytes (b64encode [0; 255; 16]) true None)]).
+
+Example C14_example_generated :
+  md_ok ex_md_gen = true /\
+  g_to_yaml ex_md_gen = Some (to_yaml ex_md_gen) /\
+  match g_to_yaml ex_md_gen with
+  | Some doc => g_from_yaml (fun _ => None) doc = Some (drop_readable_md ex_md_gen) /\ Nat.ltb 1500 (length doc) = true /\
+                forallb (fun k => match g_from_yaml_dyn (fun _ => None) (firstn k doc) with None => true | Some _ => false end)
+                        [0; 1; 2; 17; 100; 700; 1499; Nat.pred (length doc)]%nat = true
+  | None => False
+  end /\
+  g_from_object (VFloat [1; 0; 0; 0; 0; 0; 240; 127]) [110; 97; 110]
+  = Some (EPrim PFloat (b64encode [1; 0; 0; 0; 0; 0; 240; 127]) false (Some [110; 97; 110])) /\
+  g_get_value [102; 108; 111; 97; 116] (b64encode [1; 0; 0; 0; 0; 0; 240; 127]) = Some (VFloat [1; 0; 0; 0; 0; 0; 240; 127]) /\
+  g_get_value [98; 111; 111; 108] [116; 114; 117; 101] = None /\
+  g_byte_range_tuple (Some [8; 56]) = Some (Some (8, 56)).
+Proof. vm_compute. repeat split. Qed.
